@@ -205,7 +205,7 @@ func checkC20(e *RunEnv) *CheckResult {
 		if g {
 			sfx = "G"
 		}
-		bfsSteps = append(bfsSteps, mk("user.name", "N"+sfx), mk("user.name", "a=b "+sfx), mk("user.email", sfx+"@b.co"), mk("user.x", "v"), mk("core.x", "w=1"), mk("core.name", "C"+sfx))
+		bfsSteps = append(bfsSteps, mk("user.name", "N"+sfx), mk("user.name", "a=b "+sfx), mk("user.email", sfx+"@b.co"), mk("user.x", "v"), mk("core.x", "w=1"), mk("core.name", "C"+sfx), mk("author.name", "A"+sfx))
 	}
 	invalid := []Step{Run("config", "--global=false", "user.name", "NF"), Run("config", "--global=true", "user.email", "T@b.co"), Run("config", "a.b.c", "v"), Run("config", "nodot", "v"), Run("config", "user.name"), Run("config", "user.name", "a", "b"),
 		{Op: "run", Args: []string{"config", ".k", "v"}, Invalid: true}, {Op: "run", Args: []string{"config", "s.", "v"}, Invalid: true}}
